@@ -214,6 +214,45 @@ func TestC30_PermutationInvariant(t *testing.T) {
 	})
 }
 
+// TestC30_NarrowStakes is the permutation check over stake sets whose values lie within a factor 4
+// of each other. Any mis-computed intermediate (a sum over the wrong peers, a wrong scale) then stays
+// within a small factor of the right one, so a broken implementation yields a *different* table of
+// ordinary size instead of a table of billions of entries that only shows as a time-out.
+func TestC30_NarrowStakes(t *testing.T) {
+	ev := harn.For("C30").Rule(c30Rule)
+	harn.Check(t, 6000, 80000, func(t *rapid.T) {
+		c := c30Gen(t)
+		base := rapid.Uint64Range(1000, 1000000).Draw(t, "narrowBase")
+		seen := map[uint64]bool{}
+		c.ties = false
+		for _, p := range c.peers {
+			p.InitPos = base * uint64(100+rapid.IntRange(0, 300).Draw(t, "narrowPct")) / 100
+			if seen[p.InitPos] {
+				c.ties = true
+			}
+			seen[p.InitPos] = true
+		}
+		c.skew = false
+		a, b := c30Orders(t, len(c.peers))
+		ca := c30Run(t, c, a)
+		cb := c30Run(t, c, b)
+		if !reflect.DeepEqual(ca, cb) {
+			what := "other fields"
+			if c30PeerList(ca) != c30PeerList(cb) {
+				what = fmt.Sprintf("Peers: [%s] vs [%s]", c30PeerList(ca), c30PeerList(cb))
+			} else if !reflect.DeepEqual(ca.PosTable, cb.PosTable) {
+				what = fmt.Sprintf("PosTable lengths %d vs %d", len(ca.PosTable), len(cb.PosTable))
+			}
+			t.Fatalf("chain configuration depends on the input order of the peers (orders %v and %v): %s; %s", a, b, what, c30Desc(c))
+		}
+		ev.Class("narrow:cases")
+		if int(c.cfg.K) < len(c.peers) {
+			ev.Class("narrow:K<n")
+		}
+		ev.Case(!reflect.DeepEqual(a, b) && int(c.cfg.K) < len(c.peers), "narrow "+c30Desc(c))
+	})
+}
+
 func TestC30_TopKAndSlots(t *testing.T) {
 	ev := harn.For("C30").Rule(c30Rule)
 	ev.Floor("case:skewed", "topk:cases", 0.08)
